@@ -19,9 +19,41 @@ EXTRA_CONFIGS = ["dns"]
 SECTIONS = {"answer", "nameserver", "additional"}
 
 
+def _r6_entry_written_whole(ctx):
+    """an entry's reply, birth and lifetime describe one upstream reply: wherever an existing entry is refreshed field by field,
+    the lifetime is refreshed with it (otherwise the new reply is served for the old reply's lifetime)"""
+    P = ctx.P
+    from ..oblig import Typer, _strip_ref
+    n = 0
+    for b in P.bodies.values():
+        if "dns::cache" not in b.id or "::test" in b.id:
+            continue
+        stores = {}
+        ty = None
+        for bb, idx, st in b.stmts():
+            pl = st["p"]
+            if len(pl) >= 2 and pl[-1] in (".reply", ".birth", ".lifetime") and "rv" in st:
+                ty = ty or Typer(P, b)
+                bt = ty.place_ty(pl[:-1])
+                if bt and _strip_ref(bt).endswith("cache::CacheValue"):
+                    stores.setdefault(pl[:-1], {}).setdefault(pl[-1], []).append((bb, st))
+        cfg = cfg_of(b) if stores else None
+        for base, flds in stores.items():
+            for f in (".reply", ".birth"):
+                for bb, st in flds.get(f, []):
+                    n += 1
+                    ctx.saw(b)
+                    okk = any(cfg.dominates(bb, b2) or cfg.dominates(b2, bb) for b2, _ in flds.get(".lifetime", []))
+                    ctx.check(okk, "R6", "entry-refreshed-with-its-lifetime:%s" % f[1:], ctx.where(b, st["sp"]),
+                              "an existing cache entry gets a new %s but keeps its old lifetime: the refreshed reply is then served (and its "
+                              "TTLs decremented) for as long as the previous reply was valid" % f[1:])
+    ctx.ok("R6", "field-wise entry refreshes examined", "", "%d" % n)
+
+
 def run(ctx):
     P = ctx.P
     cg = callgraph(P)
+    _r6_entry_written_whole(ctx)
     # ---------------- R1 section agreement
     exp = [f for f in fn_with_sig(P, ["DNSPkt"], "std::time::Duration") if f in P.bodies]
     ctx.floor("R1", "lifetime function (&DNSPkt) -> Duration", len(exp), 1)
